@@ -18,7 +18,7 @@ func init() {
 	})
 	register(&propDef{
 		id:      "C41",
-		explain: "Structural necessary conditions of 'TCPDialer bounds concurrent dials and returns ErrDialTimeout by the deadline': (E1) the dial semaphore is paired: when a concurrency channel exists every path to the dial has acquired a slot (fast or waiting send) and the release is deferred exactly on those paths; the waiting acquisition is a select that includes a timer armed with the remaining time, and its timeout path returns ErrDialTimeout without holding a slot; (R2) the context that bounds the connect is built from the absolute deadline (or from a duration computed after the slot was acquired), so time spent waiting for a slot is not granted again; (R3) every ErrDialTimeout (and every other dial error) leaves tryDial wrapped with the upstream address; (R4) the rotation loop of dial advances the address index after every failed attempt and stops on ErrDialTimeout; (R5) a failed connect is classified as a timeout by the deadline itself, not only by the context's state. Not decided: real timing, resolver behaviour, the DNS cache (C37).",
+		explain: "Structural necessary conditions of 'TCPDialer bounds concurrent dials and returns ErrDialTimeout by the deadline': (E1) the dial semaphore is paired: when a concurrency channel exists every path to the dial has acquired a slot (fast or waiting send) and the release is deferred exactly on those paths; the waiting acquisition is a select that includes a timer armed with the remaining time, and its timeout path returns ErrDialTimeout without holding a slot; (R2) the context that bounds the connect is built from the absolute deadline (or from a duration computed after the slot was acquired), so time spent waiting for a slot is not granted again; (R3) every ErrDialTimeout (and every other dial error) leaves tryDial wrapped with the upstream address; (R4) the rotation loop of dial advances the address index after every failed attempt, is counted from a constant (one attempt per resolved address wherever the rotation starts) and stops on ErrDialTimeout; (R5) a failed connect is classified as a timeout by the deadline itself, not only by the context's state. Not decided: real timing, resolver behaviour, the DNS cache (C37).",
 		run:     runC41,
 	})
 }
@@ -608,6 +608,53 @@ func runC41(p *Prog, r *Report) {
 				}
 			})
 			r.Check("R4", "TCPDialer.dial stops rotating when an attempt timed out", stop, p.Pos(df.Pos()), "no errors.Is(err, ErrDialTimeout) test in the rotation loop")
+			// every resolved address gets its turn: the loop is counted from a constant up to the number of addresses
+			// (so it makes exactly that many attempts wherever the rotation starts), it is not bounded by the index itself
+			full := false
+			if h := loopHeaderOf(try.Block()); h != nil {
+				for _, bb := range df.Blocks {
+					if !inLoop(h, bb) {
+						continue
+					}
+					iff, ok := bb.Instrs[len(bb.Instrs)-1].(*ssa.If)
+					if !ok {
+						continue
+					}
+					leaves := false
+					for _, su := range bb.Succs {
+						if !inLoop(h, su) {
+							leaves = true
+						}
+					}
+					_, cv := stripNot(iff.Cond)
+					bo, ok := cv.(*ssa.BinOp)
+					if !leaves || !ok || (bo.Op != token.LSS && bo.Op != token.GTR && bo.Op != token.LEQ && bo.Op != token.GEQ) {
+						continue
+					}
+					for _, side := range []ssa.Value{bo.X, bo.Y} {
+						// the counter: a header phi (possibly +1) whose entry value is a constant
+						v := side
+						if b2, ok := v.(*ssa.BinOp); ok && b2.Op == token.ADD {
+							if _, isC := constInt(b2.Y); isC {
+								v = b2.X
+							}
+						}
+						ph, ok := v.(*ssa.Phi)
+						if !ok || ph.Block() != h {
+							continue
+						}
+						for i, pr := range h.Preds {
+							if !h.Dominates(pr) {
+								if _, isC := constInt(ph.Edges[i]); isC {
+									full = true
+								}
+							}
+						}
+					}
+				}
+			}
+			r.Check("R4", "TCPDialer.dial makes one attempt per resolved address wherever the rotation starts", full, p.Pos(try.Pos()),
+				"the attempt loop is not counted from a constant: when the rotation starts in the middle of the list the addresses before that position are never tried, so a host with a live address is reported unreachable")
 		}
 	} else {
 		r.Undecided("R4", "(*TCPDialer).dial", "not found")
